@@ -22,6 +22,8 @@ PathsDemands(e) ==
       d == FmtRoman(n, rFmt) IN
   <<
     <<"C02.mtext",  e.mt = d>>,
+    <<"C02.stable", e.mt2 = d>>,
+    <<"C02.held",   e.held = d>>,
     <<"C02.string", e.str = d>>,
     <<"C02.verb_s", e.vs = d>>,
     <<"C02.verb_R", e.vR = FmtRoman(n, 0)>>,
